@@ -216,7 +216,7 @@ CHECKS = {
         text=("Theorems (Props/C11.lean, 19) over an interleaving model whose shared accesses are built from a FOOTPRINT regenerated "
               "from ovni.c + common.c through the clang AST on every run (tools/gen/gen_footprint.py): every API function "
               "other than proc_init/fini writes no process-wide member and only loads the state word, there is no other "
-              "shared mutable global, thread paths contain thread.<tid> (footprint_disjoint, thread_paths_contain_tid, "
+              "shared mutable global, thread paths contain thread.<tid> or are pure joins of already built paths (footprint_disjoint, thread_paths_contain_tid, "
               "decide); for every schedule of N racing ovni_proc_init / ovni_proc_fini among any other tracing threads at "
               "most one passes the compare-and-swap, on completion exactly one returned and all others died, and the process "
               "state is the winner's (cas_once, init_once, fini_once; init_shape_generated/fini_shape_generated tie the step "
@@ -225,7 +225,7 @@ CHECKS = {
               "stream.obs and stream.json equal those of its solo run and the process record is unchanged (thread_isolation, "
               "solo_is_sequential, schedule_independent); each thread's stream is a run of the C01/C02 buffer model "
               "(thread_stream_is_buffer_run); the load+store variant provably admits two winners (cas_is_needed). Tie: "
-              "regenerated footprint; the real ovni.c in a multi-threaded harness (ASan+UBSan, and a separate ThreadSanitizer "
+              "regenerated footprint (calls into static helpers are followed with their arguments bound, so a wrapped compare-and-swap keeps its constants); the real ovni.c in a multi-threaded harness (ASan+UBSan, and a separate ThreadSanitizer "
               "build) with per-thread clocks: per-thread files vs the single-threaded library, drv_rt and the interleaved "
               "model; barrier races of proc_init/proc_fini in forked children (exactly one winner)."),
         note=TB + "; PARTIAL BY NATURE: schedules are quantified in the model only - the real library is sampled (OS schedules, TSan); "
